@@ -41,11 +41,24 @@ def boxes(tier, rng):
     return out
 
 
+def big_boxes(tier, rng):
+    """Boxes too large to list in a trace (observed on sampled rows and vectors): sizes around 2^16, 2^18, 2^20, 2^21."""
+    shapes = [[257, 257], [1025, 1025], [101, 102, 103]]
+    if tier == "thorough":
+        shapes += [[513, 513], [2049, 1025], [2, 1048577 // 2 + 1], [1048577], [33, 33, 33, 33], [129, 129, 129],
+                   [17, 17, 17, 17, 17]]
+    out = []
+    for sh in shapes:
+        mins = [rng.randint(-3, 3) for _ in sh]
+        out.append([mins, [m + w - 1 for m, w in zip(mins, sh)], rng.randrange(10 ** 6)])
+    return out
+
+
 def run(tier):
     rep = C.Report("C19", tier)
     rng = random.Random(C.seed())
     rep.rule = ("every box of dimension 1-2 with bounds in -2..3 (dimension 3: bounds -1..1 sampled / -2..2 all; "
-                "dimension 4 sampled, widths <= 3); per box every vector of the box enlarged by one unit is "
+                "dimension 4 sampled, widths <= 3; a few boxes of 2^16..2^21 rows on sampled rows and vectors); per box every vector of the box enlarged by one unit is "
                 "queried; distinct = distinct boxes; non-trivial = some non-zero lower bound or a zero-width dimension")
     res = C.run_tlc("RangeSpace", "RangeSpace.cfg" if tier == "quick" else "RangeSpaceThorough.cfg", coverage=True)
     C.tlc_must_be_clean(res, "RangeSpace exhaustive")
@@ -55,6 +68,8 @@ def run(tier):
     bx = boxes(tier, rng)
     nproc = min(C.NCPU, 12)
     chunks = [bx[i::nproc] for i in range(nproc)]
+    for i, b in enumerate(big_boxes(tier, rng)):
+        chunks[i % nproc].insert(0, b)
     import concurrent.futures as cf
     with C.Scratch("verif-c19-") as d:
         def work(i):
@@ -82,9 +97,10 @@ def run(tier):
                           {"mins": o["mins"], "maxs": o["maxs"], "clause": clause,
                            "replay": "create_range_space(mins, maxs); index_fn(vector)"})
     for o in obs[:: max(1, len(obs) // 4)][:4]:
-        rep.sample({"mins": o["mins"], "maxs": o["maxs"], "n_rows": len(o["space"]),
+        rep.sample({"mins": o["mins"], "maxs": o["maxs"], "n_rows": o["nrows"],
                     "first_queries": o["queries"][:3], "first_idx": o["idx"][:3]})
     rep.extra["index_queries"] = nq
+    rep.extra["large_boxes_observed_on_sampled_rows"] = [[o["mins"], o["maxs"], o["nrows"]] for o in obs if o["sampled"]]
     rep.exhaustive = True
     rep.assumptions = ["TLC; the projection in harness/workers/rangespace_worker.py (vmapped index_fn)"]
     return rep.finish()
